@@ -1335,6 +1335,8 @@ fn exec_save(out: &mut Out, st: &mut State, line: &str) -> (String, bool) {
                         }
                     }
                     // character data is compared unescaped (`'` and `&apos;` are the same text)
+                    // ... and as an XML processor passes it on: a literal CR LF / CR is a line feed (XML 1.0 2.11)
+                    let txt = txt.replace("\r\n", "\n").replace('\r', "\n");
                     v.push(txt.replace("&apos;", "'").replace("&quot;", "\"").replace("&lt;", "<").replace("&gt;", ">").replace("&#13;", "\r").replace("&#10;", "\n").replace("&amp;", "&"));
                     rest = &r[j + 5..];
                 }
